@@ -941,8 +941,7 @@ void invalid_case(Choices& c, Report& r)
   };
   some_valid(prefix, true);
   some_valid(suffix, !no_close_after);
-  if (!prefix.empty() && prefix.back() == '%') { /* "%%(bad)" still has "%(" */ }
-  if (!suffix.empty() && suffix[0] == '(' && !bad.empty() && bad.back() == '%') suffix.insert(suffix.begin(), ' ');
+  // a prefix that ends in a literal '%' is fine: "%%(bad)" still contains "%(bad)"
   std::string const pat = prefix + bad + suffix;
   r.line(std::string{"invalid ("} + what + ") pattern=\"" + esc(pat, 400) + "\" must throw QuillError");
   r.label(std::string{"invalid."} + what);
